@@ -205,7 +205,9 @@ pub fn run(ctx: &Ctx) -> PropReport {
     rep.assumptions.push("unspecified: LIST.SET on an empty CODE stack or with an id vector that pops the CODE stack; records containing CODE/EXEC items are not re-executed in the round trip".into());
     rep.push(run_sharded(ctx, "single-instruction", ctx.tier.pick(250_000, 2_000_000), single_strategy, judge_single, |c| json!({"instruction": c.name, "state": c.state.to_json(), "brief": c.state.brief()})));
     rep.push(run_sharded(ctx, "add-get-run-roundtrip", ctx.tier.pick(60_000, 600_000), rt_strategy, judge_rt, |c| json!({"state": c.state.to_json(), "ids": c.ids, "via_id_instructions": c.via_id_instructions, "brief": c.state.brief()})));
-    rep.push(crate::props::incontext::run(ctx, ctx.tier.pick(40_000, 600_000)));
+    for r in crate::props::incontext::run_all(ctx, ctx.tier.pick(40_000, 600_000)) {
+        rep.push(r);
+    }
     rep
 }
 
